@@ -105,7 +105,7 @@ BellmanReach(g, p) ==
          IN  {"C01.Bellman s=" \o S2(s) : s \in {s \in Can \ FinalSet(g) : bad(s) = 1}}
 
 BellmanReward(Gc, Dom, rew) ==
-    IF Len(rew) # Gc.n \/ \E s \in Dom : rew[s].k # "ok" THEN {}
+    IF Len(rew) # Gc.n \/ (\E s \in Dom : rew[s].k # "ok") \/ RScale(Gc) # 1 THEN {}
     ELSE LET mi == MaxInt(rew, Dom)
              bad(s) == IF Len(Gc.tr[s]) = 0 THEN (IF rew[s].z THEN 0 ELSE 1)
                        ELSE BellmanBad(Gc.owner[s], Gc.tr[s], rew, rew[s], Gc.reward[s], mi)
